@@ -1,6 +1,7 @@
 //! Engines: each simulates one subsystem of fuel-vm behind the seams the code offers.
 pub mod merkle;
+pub mod pred;
 
 use crate::kernel::EngineDef;
 
-pub static ALL: &[&EngineDef] = &[&merkle::BMT, ];
+pub static ALL: &[&EngineDef] = &[&merkle::BMT, &pred::PRED];
